@@ -52,6 +52,9 @@ class Contract:
     instances: list = field(default_factory=list)  # function-level instances of requires_forall
     pure_view: bool = False  # callee usable inside spec clauses (deterministic, no effects)
     trusted: bool = False  # contract assumed, not verified (listed in assumptions)
+    # postcondition clauses that callers may use but that the body is NOT checked against (heap-wide representation
+    # invariants the verifier has no device for); every use is listed under assumptions
+    assumed_ensures: list = field(default_factory=list)
     global_maps: dict = field(default_factory=dict)  # module-level dict[int, tuple-of-refs] registries: name -> element class ("tuple")
     global_map_keys: dict = field(default_factory=dict)  # name -> [key expressions over the parameters]: the only keys the function may change
     entry_closure: bool = False  # assume the entry heap is closed: every reference stored in an object allocated at entry was allocated at entry
